@@ -425,6 +425,8 @@ func runC12(c *Ctx) {
 	}
 	// host query parameter
 	now := time.Now()
+	var qExp time.Time
+	qShort := false
 	switch pol.mode {
 	case "signed":
 		kinds := []string{"signed-listed", "signed-unlisted", "forged-key", "expired", "wrong-issuer", "absent", "plain-host"}
@@ -455,7 +457,13 @@ func runC12(c *Ctx) {
 			tok = h
 		case "absent":
 		default:
-			tok = queryToken(key, tokHost, pol.issuer, now.Add(5*time.Minute))
+			qExp = now.Add(5 * time.Minute)
+			if pol.paramKind == "signed-listed" && c.T.Bool(2, 3) {
+				// a query token that is about to lapse: good now, presented again when it is over
+				qExp = now.Add(time.Duration(30+c.T.Choose(31)) * time.Second)
+				qShort = true
+			}
+			tok = queryToken(key, tokHost, pol.issuer, qExp)
 		}
 		pol.hostParam = tokHost
 		if pol.paramKind == "expired" || pol.paramKind == "wrong-issuer" {
@@ -737,6 +745,29 @@ func runC12(c *Ctx) {
 		}
 		replay = "accepted over " + tr
 		c.S.Count("probe.replay_accepted")
+	}
+	if qShort && c.S.Viol == nil {
+		// the query token was honoured while it was valid; presented again after its expiry (and
+		// the JOSE library's minute of leeway), by the same or by another signed-in session, it
+		// must not yield a file any more
+		if d := time.Until(qExp.Add(time.Minute + time.Duration(5+c.T.Choose(116))*time.Second)); d > 0 {
+			c.S.Advance(d)
+		}
+		bq := b
+		if c.T.Bool(1, 2) {
+			bq = c.W.NewBrowser("b5", "10.2.0.77:51300")
+			if ok, cb5 := bq.Login("/connect", &env.IdPUser{Sub: "sub-erin", Claims: map[string]any{"preferred_username": "erin"}}); !ok {
+				c.S.Fail("C13", "valid-login-not-authenticated", "%s: login of a second user failed: callback %d", descr, cb5.Status)
+				return
+			}
+		}
+		r2 := bq.Get(path)
+		if gotFile(r2) {
+			c.S.Fail("C12", "file-for-lapsed-query-token", "%s: the signed host token lapsed %v ago (beyond the minute of leeway), it was honoured once while valid, and presented again by %s it still yields a connection file", descr, time.Since(qExp).Round(time.Second), bq.Name)
+			return
+		}
+		descr += fmt.Sprintf(" query-token-presented-again-%v-after-expiry->%d", time.Since(qExp).Round(time.Second), r2.Status)
+		c.S.Count("probe.lapsed_query_token_presented_again")
 	}
 	c.Res.Reach = true
 	c.Samplef("%s session=authenticated -> file{full address=%q username=%q domain=%q} token{sub=%v clientIp=%v exp-iat=%ds} replay=%s", descr, host, f.Values["username"], f.Values["domain"], claims["sub"], claims["clientIp"], int64(exp)-issuedAt.Unix(), replay)
